@@ -112,14 +112,14 @@ COMM_NOTE = COMMON_NOTE + ("OS axioms A1 (POLLOUT means a write of <= 4096 bytes
              "during replay; unix implementation only (Windows helper-thread communicator not modelled).")
 CLAIMED["C01"] = {
     "engine": "comm", "design_ref": "DESIGN.md section 6, C01",
-    "technique": "Lean 4 proof (readiness invariant over all interleavings) + sim-kernel trace conformance with deadlock/spin oracle",
-    "text": "PARTIAL at proof level (stated in Props/C01.lean): proved for every script, input, capacity and interleaving: "
-            "c01_never_blocks_in_io (after a poll the library's write is <= 4096 bytes with >= 4096 free or no reader, its reads have "
-            "data or no writer: it blocks only inside poll, which covers every stream it owns), c01_no_deadlock_in_poll_partial "
-            "(if that poll(-1) finds nothing ready the child is not blocked), c01_no_eof_spin. The decreasing termination measure is "
-            "not yet proved; termination, deadlock and spinning are checked on every run by the harness oracle on the real "
-            "Communicator under the simulated kernel (every blocked call while the child cannot move, 300 calls without progress, "
-            "20 s without a system call).",
+    "technique": "Lean 4 proof (readiness invariant + decreasing measure + progress, over all interleavings) + sim-kernel trace conformance with deadlock/spin oracle",
+    "text": "For every script, input, capacity (>= 4096 stdin, >= 1 outputs), piped subset, size limit and interleaving, no time limit: "
+            "c01_measure_decreases (a measure on library + pipes + child script that every step of either party strictly decreases), "
+            "c01_terminates (number of steps bounded by the measure of the start state), c01_progress (whenever the call has not "
+            "returned the pending call is answered or the child can move: in poll and in the blocking read/write of the single-stream "
+            "shortcut), c01_maximal_run_has_returned, c01_never_blocks_in_io, c01_polls_all_streams, c01_no_eof_spin. With a time limit "
+            "termination is C04's (c04_bounded_overrun). On every run the harness oracle checks the real Communicator under the "
+            "simulated kernel (blocked call while the child cannot move, 300 calls without progress, 20 s without a system call).",
     "note": COMM_NOTE,
 }
 CLAIMED["C02"] = {
